@@ -137,6 +137,33 @@ def _threshold_has_data_shape(data, nsigma, background, error, mask, sigma_clip,
     return _rec(name, 'C04', bool(ok), shape=np.shape(result))
 
 
+def _mirrored_value_definition(data, replace_mask, xycenter, mask, result):
+    """`_mask_to_mirrored_value` (SourceCatalog apermask_method='correct'): a pixel of replace_mask takes the value of
+    the pixel mirrored through the centre pixel; 0 when that pixel is outside the array (on ANY side: a negative
+    index must not wrap around), is itself to be replaced, or is in `mask`; every other pixel is unchanged."""
+    name = '_mask_to_mirrored_value:definition'
+    try:
+        d = np.asarray(data)
+        rm = np.asarray(replace_mask, bool)
+        ny, nx = d.shape
+        exp = np.array(d, copy=True)
+        cx, cy = int(xycenter[0] + 0.5), int(xycenter[1] + 0.5)
+        ys, xs = np.nonzero(rm)
+        if len(ys) > 20000:
+            return _rec(name + ':too_large_not_judged', 'C07', True)
+        for y, x in zip(ys.tolist(), xs.tolist()):
+            xm, ym = 2 * cx - x, 2 * cy - y
+            if xm < 0 or ym < 0 or xm >= nx or ym >= ny or rm[ym, xm] or (mask is not None and mask[ym, xm]):
+                exp[y, x] = 0
+            else:
+                exp[y, x] = d[ym, xm]
+        r = np.asarray(result)
+        ok = r.shape == exp.shape and bool(np.array_equal(r, exp, equal_nan=(exp.dtype.kind == 'f')))
+    except Exception:  # noqa: BLE001
+        return _rec(name, 'C07', True)
+    return _rec(name, 'C07', ok, shape=d.shape, center=(cx, cy), n_replaced=len(ys))
+
+
 # ----------------------------------------------------------------------
 def _patch_importers(old, new, name):
     """Replace references bound by `from x import name` in photutils modules."""
@@ -187,6 +214,11 @@ def install():
     old = detect.detect_threshold
     new = icontract.ensure(_threshold_has_data_shape)(old)
     out['detect_threshold'] = _patch_importers(old, new, 'detect_threshold')
+
+    from photutils.segmentation import utils as segutils
+    old = segutils._mask_to_mirrored_value
+    new = icontract.ensure(_mirrored_value_definition)(old)
+    out['_mask_to_mirrored_value'] = _patch_importers(old, new, '_mask_to_mirrored_value')
     _installed = True
     return out
 
